@@ -404,4 +404,143 @@ theorem applyItem_two_dense (g : M4 R) (a b : Fin 2) (hab : a ≠ b) (psi : List
     refine ⟨?_, ?_, ?_, ?_⟩ <;> ring
   · exact absurd rfl hab
 
+/-- `create_dense` on a one-qubit register returns the matrix of the embedding: entry `(i, j)` is
+`g (bit of i) (bit of j)` -/
+theorem createDense_one (g : M2 R) :
+    createDense (regEntries R) (Item.one g 0) [] [0] 1 =
+      .ok ((List.range (2 ^ 1)).map fun i => (List.range (2 ^ 1)).map fun j =>
+        g (bitsFn 1 i (0 : Fin 1)) (bitsFn 1 j (0 : Fin 1))) := by
+  have hr2 : List.range (2 ^ 1) = [0, 1] := rfl
+  have f0 : fmtBin 1 0 = [false] := by decide
+  have f1 : fmtBin 1 1 = [true] := by decide
+  have b0 : bitsFn 1 0 (0 : Fin 1) = false := by decide
+  have b1 : bitsFn 1 1 (0 : Fin 1) = true := by decide
+  simp only [createDense, List.length_nil, List.length_cons, hr2, mapE, entryOf, f0, f1, getE, List.cons_append,
+    List.nil_append, List.getElem?_cons_zero, List.getElem?_cons_succ, Nat.zero_add, regEntries, ne_eq,
+    not_true_eq_false, if_false, List.map_cons, List.map_nil, b0, b1]
+
+/-- `create_dense` for a two-qubit gate on a two-qubit register returns the matrix of the embedding: entry
+`(i, j)` is `g (bits a, b of i) (bits a, b of j)` -/
+theorem createDense_two (g : M4 R) (a b : Fin 2) (hab : a ≠ b) :
+    createDense (regEntries R) (Item.two g a.val b.val) [] [a.val, b.val] 2 =
+      .ok ((List.range (2 ^ 2)).map fun i => (List.range (2 ^ 2)).map fun j =>
+        g (bitsFn 2 i a, bitsFn 2 i b) (bitsFn 2 j a, bitsFn 2 j b)) := by
+  have hr2 : List.range (2 ^ 2) = [0, 1, 2, 3] := rfl
+  have f0 : fmtBin 2 0 = [false, false] := by decide
+  have f1 : fmtBin 2 1 = [false, true] := by decide
+  have f2 : fmtBin 2 2 = [true, false] := by decide
+  have f3 : fmtBin 2 3 = [true, true] := by decide
+  have b00 : bitsFn 2 0 (0 : Fin 2) = false := by decide
+  have b01 : bitsFn 2 0 (1 : Fin 2) = false := by decide
+  have b10 : bitsFn 2 1 (0 : Fin 2) = false := by decide
+  have b11 : bitsFn 2 1 (1 : Fin 2) = true := by decide
+  have b20 : bitsFn 2 2 (0 : Fin 2) = true := by decide
+  have b21 : bitsFn 2 2 (1 : Fin 2) = false := by decide
+  have b30 : bitsFn 2 3 (0 : Fin 2) = true := by decide
+  have b31 : bitsFn 2 3 (1 : Fin 2) = true := by decide
+  fin_cases a <;> fin_cases b
+  · exact absurd rfl hab
+  · simp only [Fin.zero_eta, Fin.mk_one, Fin.isValue, createDense, List.length_nil,
+      List.length_cons, hr2, mapE, entryOf, f0, f1, f2, f3, getE, List.cons_append, List.nil_append,
+      List.getElem?_cons_zero, List.getElem?_cons_succ, Nat.zero_add, Nat.reduceAdd, regEntries, ne_eq,
+      not_true_eq_false, if_false, List.map_cons, List.map_nil, b00, b01, b10, b11, b20, b21, b30, b31]
+  · simp only [Fin.zero_eta, Fin.mk_one, Fin.isValue, createDense, List.length_nil,
+      List.length_cons, hr2, mapE, entryOf, f0, f1, f2, f3, getE, List.cons_append, List.nil_append,
+      List.getElem?_cons_zero, List.getElem?_cons_succ, Nat.zero_add, Nat.reduceAdd, regEntries, ne_eq,
+      not_true_eq_false, if_false, List.map_cons, List.map_nil, b00, b01, b10, b11, b20, b21, b30, b31]
+  · exact absurd rfl hab
+
+/-- `create_sparse` for a one-qubit item: the triplets exist and their sum acts like `E1` -/
+theorem createSparse_one (N q : Nat) (hq : q < N) (g : M2 R) :
+    ∃ T, createSparse (regEntries R) (Item.one g q) ((List.range N).erase q) [q] N = .ok T ∧
+      ∀ psi : List R, psi.length = 2 ^ N →
+        spmv (semiringScalar R) (2 ^ N) T psi = .ok (listOf (E1 g ⟨q, hq⟩ (vecOf psi))) := by
+  have sp := split_one N q hq
+  have hlen : ((List.range N).erase q).length + [q].length = N := by rw [sp.hqn]; simp; omega
+  have htrip : ∀ i, i < 2 ^ ((List.range N).erase q).length → ∀ j, j < 2 ^ (2 * [q].length) →
+      sparseTriplet (regEntries R) (Item.one g q) ((List.range N).erase q) [q] N
+        ((List.range N).erase q).length [q].length i j =
+      .ok (idx (P N ((List.range N).erase q) (bitsBE (N - 1) i) [q] [j.testBit 1]),
+           idx (P N ((List.range N).erase q) (bitsBE (N - 1) i) [q] [j.testBit 0]),
+           g (j.testBit 1) (j.testBit 0)) := by
+    intro i hi j hj
+    rw [sp.hqn] at hi ⊢
+    exact sparseTriplet_one N q hq g i hi j (by simpa using hj)
+  refine ⟨_, createSparse_ok (regEntries R) _ _ _ N hlen _ htrip, ?_⟩
+  intro psi hpsi
+  have := sparse_assemble N (Item.one g q) ((List.range N).erase q) [q] hlen _ htrip
+    (fun i j => ⟨idx_lt _, idx_lt _⟩) psi hpsi (E1 g ⟨q, hq⟩ (vecOf psi))
+    (by intro x0; rw [sp.hqn]; exact row_sum_one N q hq g (vecOf psi) x0)
+  rw [createSparse_ok (regEntries R) _ _ _ N hlen _ htrip] at this
+  exact this
+
+/-- `create_sparse` for a two-qubit item: the triplets exist and their sum acts like `E2` -/
+theorem createSparse_two (N a b : Nat) (ha : a < N) (hb : b < N) (hab : a ≠ b) (g : M4 R) :
+    ∃ T, createSparse (regEntries R) (Item.two g a b) (((List.range N).erase a).erase b) [a, b] N = .ok T ∧
+      ∀ psi : List R, psi.length = 2 ^ N →
+        spmv (semiringScalar R) (2 ^ N) T psi = .ok (listOf (E2 g ⟨a, ha⟩ ⟨b, hb⟩ (vecOf psi))) := by
+  have sp := split_two N a b ha hb hab
+  have hlen : (((List.range N).erase a).erase b).length + [a, b].length = N := by rw [sp.hqn]; simp; omega
+  have htrip : ∀ i, i < 2 ^ (((List.range N).erase a).erase b).length → ∀ j, j < 2 ^ (2 * [a, b].length) →
+      sparseTriplet (regEntries R) (Item.two g a b) (((List.range N).erase a).erase b) [a, b] N
+        (((List.range N).erase a).erase b).length [a, b].length i j =
+      .ok (idx (P N (((List.range N).erase a).erase b) (bitsBE (N - 2) i) [a, b] [j.testBit 3, j.testBit 2]),
+           idx (P N (((List.range N).erase a).erase b) (bitsBE (N - 2) i) [a, b] [j.testBit 1, j.testBit 0]),
+           g (j.testBit 3, j.testBit 2) (j.testBit 1, j.testBit 0)) := by
+    intro i hi j hj
+    rw [sp.hqn] at hi ⊢
+    exact sparseTriplet_two N a b ha hb hab g i hi j (by simpa using hj)
+  refine ⟨_, createSparse_ok (regEntries R) _ _ _ N hlen _ htrip, ?_⟩
+  intro psi hpsi
+  have := sparse_assemble N (Item.two g a b) (((List.range N).erase a).erase b) [a, b] hlen _ htrip
+    (fun i j => ⟨idx_lt _, idx_lt _⟩) psi hpsi (E2 g ⟨a, ha⟩ ⟨b, hb⟩ (vecOf psi))
+    (by intro x0; rw [sp.hqn]; exact row_sum_two N a b ha hb hab g (vecOf psi) x0)
+  rw [createSparse_ok (regEntries R) _ _ _ N hlen _ htrip] at this
+  exact this
+
+/-! ### every well-formed item, and lists of items -/
+
+open QG.Spec.GateAlgebra in
+/-- one pass of `for item in mp_list_opt:` applies the register embedding of the item -/
+theorem applyItem_spec (N : Nat) (item : Item (M2 R) (M4 R)) (hwf : WFItem N item) (psi : List R)
+    (hpsi : psi.length = 2 ^ N) :
+    applyItem (semiringScalar R) (regEntries R) N psi item =
+      .ok (listOf ((gateAlgebra R N).item item (vecOf psi))) := by
+  cases item with
+  | one g q =>
+    have hq : q < N := hwf
+    have hitem : (gateAlgebra R N).item (Item.one g q) = E1 g ⟨q, hq⟩ := e1_eq g q hq
+    rw [hitem]
+    by_cases hN : 2 ≤ N
+    · exact applyItem_one_sparse N q hq hN g psi hpsi
+    · have hN1 : N = 1 := by omega
+      subst hN1
+      have hq0 : q = 0 := by omega
+      subst hq0
+      exact applyItem_one_dense g psi hpsi
+  | two g a b =>
+    obtain ⟨ha, hb, hab⟩ : a < N ∧ b < N ∧ a ≠ b := hwf
+    have hitem : (gateAlgebra R N).item (Item.two g a b) = E2 g ⟨a, ha⟩ ⟨b, hb⟩ := e2_eq g a b ha hb
+    rw [hitem]
+    by_cases hN : 3 ≤ N
+    · exact applyItem_two_sparse N a b ha hb hab hN g psi hpsi
+    · have hN2 : N = 2 := by omega
+      subst hN2
+      exact applyItem_two_dense g ⟨a, ha⟩ ⟨b, hb⟩ (fun h => hab (Fin.mk.inj_iff.mp h)) psi hpsi
+
+open QG.Spec.GateAlgebra in
+/-- the loop over the (optimised) list applies the product of the embeddings in list order -/
+theorem applyItems_spec (N : Nat) (l : List (Item (M2 R) (M4 R))) (hwf : WFList N l) (psi : List R)
+    (hpsi : psi.length = 2 ^ N) :
+    applyItems (semiringScalar R) (regEntries R) N l psi =
+      .ok (listOf ((gateAlgebra R N).sem l (vecOf psi))) := by
+  induction l generalizing psi with
+  | nil =>
+    simp only [applyItems, sem_nil]
+    rw [show ((1 : Op R N) (vecOf psi)) = vecOf psi from rfl, listOf_vecOf psi hpsi]
+  | cons g rest ih =>
+    simp only [applyItems, applyItem_spec N g hwf.head psi hpsi]
+    rw [ih hwf.tail _ (listOf_length _), vecOf_listOf, sem_cons]
+    rfl
+
 end QG.Lemmas.Binary
